@@ -1841,6 +1841,11 @@ def gen_c10(tier, seed):
                      [T("X", "G1", dl, 0, [(r(2, 5, 4), CPU1), (r(1, 3, 2), G)]),
                       T("Y", "G2", dl, 0, [(r(2, 4, 3), {"CPU": 2})]),
                       T("Z", "G3", dl, 0, [(r(1, 3, 2), {"CPU": 1, "GPU": 1})])], [], {}))
+        # every task has two strategies that use DIFFERENT resource types, deadlines force the tasks to overlap
+        fams.append(("multires", [{"CPU": 1, "GPU": 1}],
+                     [T("X", "G1", now + 6, 0, [(3, CPU1), (3, G)]),
+                      T("Y", "G2", now + 6, 0, [(3, CPU1), (3, G)]),
+                      T("Z", "G3", now + 6, 0, [(3, CPU1), (3, G)])], [], {}))
         fams.append(("running", [{"CPU": 2}],
                      [T("R", "G0", dl, 0, [(5, CPU1)], "running", {"worker": 0, "strategy": 0, "start": now - 2}),
                       T("X", "G1", dl, 0, [(r(1, 3, 2), {"CPU": 2})]),
